@@ -239,7 +239,8 @@ Reward(h, R, pay, R2, pay2) ==
   LET gone == {fid \in DOMAIN files : Len(files[fid].proofs) = 0 /\ ~Young(files[fid], h)}
   IN /\ PayOK(R, pay, h) /\ PayOK(R2, pay2, h)
      /\ files' = [fid \in (DOMAIN files) \ gone |-> [files[fid] EXCEPT !.proofs = Keep(fid, h)]]
-     /\ filesO' = [fid \in (DOMAIN filesO) \ gone |-> [filesO[fid] EXCEPT !.proofs = Keep(fid, h)]]
+     /\ filesO' = [fid \in (DOMAIN filesO) \ gone |->
+                    IF fid \in DOMAIN files THEN [filesO[fid] EXCEPT !.proofs = Keep(fid, h)] ELSE filesO[fid]]
      /\ proofs' = DelAll(proofs, UNION {{<<p, fid>> : p \in Drop(fid, h)} : fid \in DOMAIN files})
      /\ providers' = [p \in DOMAIN providers |->
                         [providers[p] EXCEPT !.burned = @ + Cardinality({fid \in DOMAIN files : p \in Burn(fid, h)})]]
